@@ -45,6 +45,8 @@ pub struct RunResult {
     pub complete: bool,
     pub outcomes: HashSet<u64>,
     pub deciding: Option<ViolRec>,
+    /// Violations that match an entry of the known-findings file (index, first occurrence).
+    pub known_hits: Vec<(usize, ViolRec)>,
     pub others: BTreeMap<String, u64>,
     pub first_other: Option<ViolRec>,
     pub max_call_steps: BTreeMap<String, u64>,
@@ -90,7 +92,14 @@ fn after_exec(inst: &Inst, res: &mut ExecResult) {
     unsafe { arc_swap::verif::reset() };
 }
 
-pub fn run_local(inst: &Inst, cfg: &Config, prefix: &[u16], limit_depth: Option<usize>, deciding: Option<&str>) -> RunResult {
+pub fn run_local(
+    inst: &Inst,
+    cfg: &Config,
+    prefix: &[u16],
+    limit_depth: Option<usize>,
+    deciding: Option<&str>,
+    known: &[crate::prop::Known],
+) -> RunResult {
     let mut out = RunResult::default();
     let mut cfg = cfg.clone();
     cfg.policy = inst.policy;
@@ -131,6 +140,13 @@ pub fn run_local(inst: &Inst, cfg: &Config, prefix: &[u16], limit_depth: Option<
                         cfg: cfgs.clone(),
                     };
                     if matches(&v.property, deciding) {
+                        if let Some(i) = known.iter().position(|k| k.matches(&rec)) {
+                            // A recorded finding: reported once, the search goes on.
+                            if !out.known_hits.iter().any(|(j, _)| *j == i) {
+                                out.known_hits.push((i, rec));
+                            }
+                            return Next::Continue;
+                        }
                         out.deciding = Some(rec);
                         Next::Stop
                     } else {
@@ -151,6 +167,69 @@ pub fn run_local(inst: &Inst, cfg: &Config, prefix: &[u16], limit_depth: Option<
     out.max_choice_points = stats.max_choice_points;
     out.complete = stats.complete;
     out
+}
+
+/// The single execution below `prefix` that takes every default afterwards: result, number of
+/// alternatives at each later choice point, recorded call history.
+pub fn probe_local(
+    inst: &Inst,
+    cfg: &Config,
+    prefix: &[u16],
+    deciding: Option<&str>,
+    known: &[crate::prop::Known],
+) -> (RunResult, Vec<u16>, Vec<String>) {
+    // limit_depth = prefix length: exactly one execution, no alternatives taken below.
+    let mut ns = Vec::new();
+    let mut hist = Vec::new();
+    let mut cfg2 = cfg.clone();
+    cfg2.policy = inst.policy;
+    cfg2.tls_reverse = inst.tls_reverse;
+    // A probe is an exploration limited to the prefix depth; the alternatives come from rt::probe.
+    let (res, n) = rt::probe(&cfg2, prefix, inst.body.clone(), &mut || before_exec(inst), &mut |res| {
+        hist = world::fmt_history(None);
+        after_exec(inst, res);
+    });
+    ns.extend(n);
+    let mut out = RunResult::default();
+    out.executions = 1;
+    out.nodes = ns.len() as u64;
+    out.steps = res.steps;
+    out.max_steps = res.steps;
+    out.max_choice_points = prefix.len() + ns.len();
+    out.complete = true;
+    out.max_deviations = (res.preemptions, res.stale_reads, res.spurious);
+    world::world(|w| {
+        for (k, v) in &w.max_steps {
+            out.max_call_steps.insert(kind_name(*k).to_string(), *v);
+        }
+        out.max_nodes = w.max_nodes;
+    });
+    match &res.violation {
+        None => {
+            out.outcomes.insert(world::outcome_hash());
+        }
+        Some(v) => {
+            let rec = ViolRec {
+                instance: inst.name.clone(),
+                property: v.property.clone(),
+                oracle: v.oracle.clone(),
+                message: v.message.clone(),
+                choices: res.choices.clone(),
+                cfg: cfg_string(&cfg2),
+            };
+            if matches(&v.property, deciding) {
+                if let Some(i) = known.iter().position(|k| k.matches(&rec)) {
+                    out.known_hits.push((i, rec));
+                } else {
+                    out.deciding = Some(rec);
+                }
+            } else {
+                out.others.insert(v.property.clone(), 1);
+                out.first_other = Some(rec);
+            }
+        }
+    }
+    (out, ns, hist)
 }
 
 /// Replays one choice vector with a trace; returns (result, trace text).
